@@ -357,4 +357,13 @@ theorem C13_cover_whole_element_flag (o : Opts) (env : Env) (pre post : List Nod
   have hm := h.2.2 h1 h2
   exact ⟨fun he => by rw [he] at hm; simp at hm, hm⟩
 
+
+/-- An object literal with a computed key is constant only if the KEY expression is (it is evaluated on every render). -/
+theorem C13_computed_key_not_constant (as las kas cas : List String) (e v : Node) :
+    isConstant (.mk .object as [.mk .list las [.mk .kv kas [.mk .computed cas [e], v]]]) = (isConstant e && isConstant v) := by
+  simp [isConstant, allConstProps]
+
+/-- … in particular `{ [x]: false }` with a variable `x` is not constant. -/
+example : isConstant (.mk .object [] [nList [nKV (nComputed (nIdent "x" "u")) (nBool false)]]) = false := by decide
+
 end VueJsx
